@@ -301,6 +301,10 @@ func verifyMycatPatitionLongShard(shardNum int, partitionCount, partitionLength 
 
 	segmentLength := 0
 	for i := 0; i < countSize; i++ {
+		// a negative count or length can still add up to shardNum / PartitionLength, and then indexes the tables below out of range
+		if countList[i] < 0 || lengthList[i] < 0 {
+			return fmt.Errorf("partition count and length must not be negative")
+		}
 		segmentLength += countList[i]
 	}
 	if segmentLength != shardNum {
